@@ -45,7 +45,8 @@ if cfg.get("idfn"):
     def idfn(src):
         # a user supplied identifier function: input sNN_raw.fasta is the record sNN
         name = Path(str(getattr(src, "unique_id", getattr(src, "source", src)))).name
-        return name.split(".")[0].replace("_raw", "")
+        # deliberately NOT idempotent on record names: 's03_raw.fasta' -> 's03', but 's03.fasta' -> 's03.fasta'
+        return name.split("_")[0]
 
     app.apply_to(ins, id_from_source=idfn, logger=False, show_progress=False)
 else:
